@@ -171,9 +171,10 @@ namespace c54 {
    */
   inline const char* knownClass(const std::string& s) {
     if (unterminatedDescription(s)) return "C54.read_past_end.handleDescription_unterminated";
-    // last token, comments removed
+    // last token, comments removed (c1, c2: the last two characters which are neither blank nor in a comment)
     std::string last;
     std::string cur;
+    char c1 = 0, c2 = 0;
     const auto n = s.size();
     std::size_t i = 0;
     while (i < n) {
@@ -201,6 +202,8 @@ namespace c54 {
         }
         i = j < n ? j + 1 : n;
         last = "'";
+        c1 = c2;
+        c2 = '\'';
         continue;
       }
       if (std::isspace(static_cast<unsigned char>(c))) {
@@ -210,10 +213,15 @@ namespace c54 {
         }
       } else {
         cur += c;
+        c1 = c2;
+        c2 = c;
       }
       ++i;
     }
     if (!cur.empty()) last = cur;
+    // `;` is registered as a keyword (SchemeParserBase::handleLonelySeparator): a file reduced to `;` or ending
+    // with `;;` ends with a keyword
+    if (c2 == ';' && (c1 == ';' || c1 == 0)) return "C54.heap-buffer-overflow.treatKeyword_at_end_of_file";
     // does it end with @identifier (not preceded by an identifier character)?
     auto e = last.size();
     while (e > 0 && (std::isalnum(static_cast<unsigned char>(last[e - 1])) || last[e - 1] == '_')) --e;
